@@ -4,6 +4,7 @@ package main
 
 import (
 	"fmt"
+	"reflect"
 	"strings"
 
 	"github.com/z7zmey/php-parser/pkg/ast"
@@ -119,6 +120,32 @@ func assignRefOperand(root ast.Vertex) bool {
 	return found
 }
 
+// unarySignOverBinary counts unary +/- nodes whose operand is a binary operation other than `**`, or a
+// ternary: with the documented precedence (unary sign above every binary operator but `**`) such a node
+// only arises from explicit parentheses, which this tree model does not keep as the direct operand
+func unarySignOverBinary(root ast.Vertex) int {
+	n := 0
+	walkTree(root, func(v ast.Vertex, _ int) {
+		var e ast.Vertex
+		switch u := v.(type) {
+		case *ast.ExprUnaryPlus:
+			e = u.Expr
+		case *ast.ExprUnaryMinus:
+			e = u.Expr
+		default:
+			return
+		}
+		if isNilVertex(e) {
+			return
+		}
+		name := reflect.TypeOf(e).Elem().Name()
+		if (strings.HasPrefix(name, "ExprBinary") && name != "ExprBinaryPow") || name == "ExprTernary" {
+			n++
+		}
+	}, 0)
+	return n
+}
+
 // evalC10: parse under 5.6 and under 7.4; when both are error-free the full trees (kinds, nesting,
 // values, tokens with free-floating text, positions) must be identical.
 func evalC10(src []byte, cfg string) (o Outcome) {
@@ -166,6 +193,8 @@ func evalC10(src []byte, cfg string) (o Outcome) {
 			site = "differs:php5-static-member-dim"
 		} else if what == "structure" && assignRefOperand(p7.Root) {
 			site = "differs:php7-assign-ref-operand"
+		} else if what == "structure" && unarySignOverBinary(p5.Root) > unarySignOverBinary(p7.Root) {
+			site = "differs:php5-static-scalar-unary-sign"
 		}
 		if what == "tokens-or-positions" {
 			switch {
